@@ -62,7 +62,11 @@ func cmdCheck(args []string) {
 	workers := fs.Int("j", 8, "parallel solver processes")
 	writeClaims := fs.Bool("write-claims", false, "(maintenance) rewrite the claims file from this run; never used by registered commands")
 	verbose := fs.Bool("v", false, "verbose")
+	outDir := fs.String("out", "", "directory for evidence/ and replay/ output (default: the verif directory)")
 	fs.Parse(args)
+	if *outDir == "" {
+		*outDir = *vdir
+	}
 	t0 := time.Now()
 	seed := 0
 	if s := os.Getenv("VERIF_SEED"); s != "" {
@@ -146,8 +150,12 @@ func cmdCheck(args []string) {
 
 	if *writeClaims {
 		var names []string
+		limit := 3.0
+		if *tier == "thorough" {
+			limit = 40.0
+		}
 		for _, r := range all {
-			if r.Status == "discharged" && r.Res.Time <= 3.0 {
+			if r.Status == "discharged" && r.Res.Time <= limit {
 				names = append(names, r.Obl.Name)
 			}
 		}
@@ -165,7 +173,7 @@ func cmdCheck(args []string) {
 	solverTime := 0.0
 	var undecided, newFailing, knownLines []string
 	coverOK := true
-	replayDir := filepath.Join(*vdir, "replay", *prop)
+	replayDir := filepath.Join(*outDir, "replay", *prop)
 	os.MkdirAll(replayDir, 0o755)
 	report := func(name, reason string, r *OblResult) {
 		violations++
@@ -326,8 +334,8 @@ func cmdCheck(args []string) {
 		"violations":  violations,
 	}
 	js, _ := json.MarshalIndent(ev, "", " ")
-	os.MkdirAll(filepath.Join(*vdir, "evidence"), 0o755)
-	os.WriteFile(filepath.Join(*vdir, "evidence", *prop+".json"), js, 0o644)
+	os.MkdirAll(filepath.Join(*outDir, "evidence"), 0o755)
+	os.WriteFile(filepath.Join(*outDir, "evidence", *prop+".json"), js, 0o644)
 	fmt.Printf("property %s tier %s: %d/%d claimed obligations discharged, %d generated, %d known findings, %d violations, %.1fs\n",
 		*prop, *tier, discharged, claimedN, len(all), len(knownLines), violations, time.Since(t0).Seconds())
 	if claimedN == 0 || discharged == 0 {
